@@ -17,6 +17,7 @@ from __future__ import annotations
 import inspect
 import json
 import os
+import random
 import subprocess
 import sys
 import time
@@ -37,11 +38,12 @@ DOMAINS = {
         ("Inspector_cprop_quick.cfg", True),
     ],
     "thorough": [
-        ("Inspector_clean_thorough.cfg", True),
+        ("Inspector_clean_thorough.cfg", True, 16000),      # model-checked exhaustively, seeded sample replayed
         ("Inspector_clean2_thorough.cfg", True),
         ("Inspector_full_thorough.cfg", False),
         ("Inspector_sigdoc_thorough.cfg", True),
         ("Inspector_deffull_thorough.cfg", False),
+        ("Inspector_nestfull_thorough.cfg", False, 8000),   # idem
         ("Inspector_full_quick.cfg", False),
         ("Inspector_cprop_quick.cfg", True),
     ],
@@ -426,12 +428,15 @@ def main(tier: str, replay: str | None = None):
 
     t0 = time.time()
     seen: set = set()
+    caps: dict = {}
+    sampled = False
     witnesses = []
     with scratch("c17-") as root:
         rp = Replayer(root, procs)
         with ThreadPoolExecutor(max_workers=len(DOMAINS[tier]) + len(DEFECTS)) as pool:
             futs = {}
-            for cfg, clean in DOMAINS[tier]:
+            for cfg, clean, *cap in DOMAINS[tier]:
+                caps[cfg] = cap[0] if cap else None
                 futs[pool.submit(tlc.run, "Inspector", cfg, workers=TLC_WORKERS[tier], timeout=3000, heap="2g" if tier == "quick" else "6g")] = ("domain", cfg, clean)
             for cause, (inv, consts) in DEFECTS.items():
                 futs[pool.submit(tlc.run, "Inspector", "Inspector_defect.cfg", workers=1, timeout=600, constants=dict(consts, INV=inv), dump_trace=True, heap="512m")] = ("defect", cause, inv)
@@ -446,9 +451,16 @@ def main(tier: str, replay: str | None = None):
                         validate_doctable(res)
                         first = False
                     fresh = []
-                    for c in res.cases:
-                        if b and c["diffs"]:
-                            die(f"C17: clean domain {a} emitted a program with predicted differences")
+                    pool_cases = res.cases
+                    if b and any(c["diffs"] for c in pool_cases):
+                        die(f"C17: clean domain {a} emitted a program with predicted differences")
+                    if caps[a] and len(pool_cases) > caps[a]:
+                        # TLC decided the invariants on every program of this domain; the binding replays a seeded sample
+                        # (drawn from the sorted case list, so the replayed set does not depend on the order TLC runs finish)
+                        run.note(f"{a}: {len(pool_cases)} programs model-checked, {caps[a]} of them (seed {SEED}) replayed on the real agents")
+                        pool_cases = random.Random(SEED).sample(sorted(pool_cases, key=case_key), caps[a])
+                        sampled = True
+                    for c in pool_cases:
                         k = case_key(c)
                         if k not in seen:
                             seen.add(k)
@@ -462,7 +474,7 @@ def main(tier: str, replay: str | None = None):
                         die(f"C17: the model no longer exhibits the recorded defect '{a}' (invariant {b} not refuted: {res.violated})")
                     witnesses.append((a, res.trace[-1]))
         print(f"tlc done t+{time.time() - t0:.0f}s, {len(seen)} distinct programs", flush=True)
-        run.exhaustive = True
+        run.exhaustive = not sampled
         rp.drain(checker)
         print(f"replay done t+{time.time() - t0:.0f}s", flush=True)
     # every recorded root cause: TLC's counterexample program must show the very difference on the real code
